@@ -46,6 +46,9 @@ enum Case {
   Alias { alias: String, network: String },
   Eq { a: Build, b: Build },
   Trans { a: Build, b: Build, c: Build },
+  /// `IotaDID::parse(s)` then the owning conversion to `String` (via 0 `String::from`, 1 `DID::into_string`,
+  /// 2 `Into::<String>::into`), executed in a child process because a non-returning call cannot be guarded
+  IntoString { s: String, via: u8 },
 }
 
 #[derive(Default)]
@@ -192,7 +195,8 @@ fn judge(ctx: &Ctx, family: &str, via: &str, input: &str, v: &IotaDID, case: &Ca
     }
   };
   // string forms
-  let forms = guard(|| (v.to_string(), String::from(v.clone()), v.clone().into_string(), serde_json::to_value(v).ok(), CoreDID::from(v.clone()).as_str().to_owned()));
+  // (`String::from(IotaDID)` / `into_string` are probed in a child process: see `probe_into_string`)
+  let forms = guard(|| (v.to_string(), format!("{v}"), <IotaDID as AsRef<CoreDID>>::as_ref(v).as_str().to_owned(), serde_json::to_value(v).ok(), CoreDID::from(v.clone()).as_str().to_owned()));
   match forms {
     Err(p) => {
       ctx.violation(&format!("{family}|string-form|{}", pkey(&p)), &format!("{via}({input:?}): {}", p.msg), case);
@@ -584,8 +588,92 @@ fn transitive(xy: Ordering, yz: Ordering, xz: Ordering) -> bool {
   }
 }
 
+/// Body of the child process (`C17_PROBE=<via>:<did>`): prints "started", converts, prints "done:<string>".
+fn probe_child_main(arg: &str) {
+  use std::io::Write;
+  let (via, s) = arg.split_once(':').expect("probe argument");
+  let did = IotaDID::parse(s).expect("probe input parses");
+  println!("started");
+  std::io::stdout().flush().ok();
+  let out: String = match via {
+    "0" => String::from(did),
+    "1" => did.into_string(),
+    _ => Into::<String>::into(did),
+  };
+  println!("done:{out}");
+  std::io::stdout().flush().ok();
+}
+
+/// Ok(string) if the conversion returned; Err(how it failed to). `None` = the probe itself could not run.
+fn probe_into_string(s: &str, via: u8) -> Option<Result<String, String>> {
+  use std::io::BufRead;
+  use std::process::{Command, Stdio};
+  use std::time::Duration;
+  let exe = std::env::current_exe().ok()?;
+  let mut child = Command::new(exe).env("C17_PROBE", format!("{via}:{s}")).stdin(Stdio::null()).stdout(Stdio::piped()).stderr(Stdio::null()).spawn().ok()?;
+  let out = child.stdout.take()?;
+  let (tx, rx) = std::sync::mpsc::channel::<String>();
+  std::thread::spawn(move || {
+    for line in std::io::BufReader::new(out).lines().map_while(Result::ok) {
+      if tx.send(line).is_err() {
+        break;
+      }
+    }
+  });
+  // process start-up may be slow on a loaded machine: generous; the conversion itself is microseconds of work
+  let started = matches!(rx.recv_timeout(Duration::from_secs(120)).as_deref(), Ok("started"));
+  if !started {
+    let _ = child.kill();
+    let _ = child.wait();
+    return None;
+  }
+  let res = match rx.recv_timeout(Duration::from_secs(5)) {
+    Ok(line) => match line.strip_prefix("done:") {
+      Some(v) => Ok(v.to_owned()),
+      None => Err(format!("unexpected output {line:?}")),
+    },
+    Err(std::sync::mpsc::RecvTimeoutError::Timeout) => Err("still running 5 s after it started (non-terminating)".to_owned()),
+    Err(std::sync::mpsc::RecvTimeoutError::Disconnected) => {
+      let st = child.wait().ok();
+      Err(format!("the process died without returning ({st:?})"))
+    }
+  };
+  let _ = child.kill();
+  let _ = child.wait();
+  Some(res)
+}
+
+fn eval_into_string(ctx: &Ctx, s: &str, via: u8, l: &mut Local) {
+  l.evals += 1;
+  let case = Case::IntoString { s: s.to_owned(), via };
+  let name = ["String::from(IotaDID)", "DID::into_string(IotaDID)", "Into::<String>::into(IotaDID)"][via.min(2) as usize];
+  if !matches!(guard(|| IotaDID::parse(s)), Ok(Ok(_))) {
+    l.outcome("into_string: input rejected by parse (not judged)");
+    return;
+  }
+  match probe_into_string(s, via) {
+    None => {
+      ctx.require(false, "into_string probe: the child process could not be started");
+      l.outcome("into_string: probe could not run");
+    }
+    Some(Ok(out)) => {
+      let want = guard(|| IotaDID::parse(s).map(|d| d.as_str().to_owned()).ok()).ok().flatten();
+      if Some(&out) != want.as_ref() {
+        ctx.violation("IotaDID::into_string|differs-from-as_str", &format!("{name} of {s:?} = {out:?}, as_str {want:?}"), &case);
+      }
+      l.outcome("into_string: returned the string form");
+    }
+    Some(Err(how)) => {
+      ctx.violation("IotaDID::into_string|never-returns", &format!("{name} of the value parsed from {s:?}: {how}"), &case);
+      l.outcome("into_string: NEVER RETURNED");
+    }
+  }
+  l.distinct(&(6u8, s, via));
+}
+
 fn eval_local(ctx: &Ctx, case: &Case, l: &mut Local) {
   match case {
+    Case::IntoString { s, via } => eval_into_string(ctx, s, *via, l),
     Case::Str { s } => eval_str(ctx, s, l),
     Case::Net { name } => eval_net(ctx, name, l),
     Case::New { tag, network } => eval_new(ctx, tag, network, l),
@@ -690,6 +778,13 @@ fn generate(ctx: &Ctx) {
   ctx.rule("full products of the stated grids, every case on all entry points; distinct_nontrivial = distinct inputs that denote an IOTA DID (read case-insensitively), are non-ASCII, or are accepted/panic on at least one entry point; distinct valid or serde-accepted network names; distinct constructor arguments; distinct pool pairs");
   ctx.assume("the reference model (normal form, case-insensitive denotation) is written from the property statement and the IOTA DID method specification; std ASCII case mapping and serde_json are trusted");
   ctx.assume("CoreDID-level defects (property C10) surface here only through the IOTA entry points; a panic raised inside CoreDID::parse is keyed as CoreDID::parse");
+  // owning conversions to String, probed in child processes while the rest runs
+  let probe_inputs: Vec<(String, u8)> = [format!("did:iota:0x{TAG_A}"), format!("did:iota:smr:0x{TAG_0}")].into_iter().flat_map(|s| (0..3u8).map(move |v| (s.clone(), v))).collect();
+  let probes: Vec<std::thread::JoinHandle<(String, u8, Option<Result<String, String>>)>> =
+    probe_inputs.iter().cloned().map(|(s, v)| std::thread::spawn(move || {
+      let r = probe_into_string(&s, v);
+      (s, v, r)
+    })).collect();
   // (a) grid
   let schemes = ["did", "DID", "dod"];
   let methods = ["iota", "IOTA", "Iota", "iot", "iotaa", "key"];
@@ -850,6 +945,33 @@ fn generate(ctx: &Ctx) {
     "Eq/Ord/Hash over the pool of clean values from all construction paths",
     json!({"builds_attempted": builds.len(), "pool": np, "paths_present": paths_present, "pairs": np * np, "triples_over_cmp_matrix": np * np * np, "intransitive": intransitive}),
   );
+  // collect the conversion probes
+  let mut never = 0;
+  for h in probes {
+    let (s, via, r) = h.join().expect("probe thread");
+    let case = Case::IntoString { s: s.clone(), via };
+    ctx.eval1();
+    ctx.add_states(1);
+    ctx.add_transitions(1);
+    ctx.add_traces(1);
+    ctx.distinct(&(6u8, &s, via));
+    match r {
+      None => ctx.require(false, "into_string probe: the child process could not be started"),
+      Some(Ok(out)) => {
+        if IotaDID::parse(&s).map(|d| d.as_str() != out).unwrap_or(true) {
+          ctx.violation("IotaDID::into_string|differs-from-as_str", &format!("{s:?} -> {out:?}"), &case);
+        }
+        ctx.outcome("into_string: returned the string form");
+      }
+      Some(Err(how)) => {
+        never += 1;
+        ctx.violation("IotaDID::into_string|never-returns", &format!("owning conversion (via {via}: 0 String::from, 1 DID::into_string, 2 Into::into) of the value parsed from {s:?}: {how}"), &case);
+        ctx.outcome("into_string: NEVER RETURNED");
+      }
+    }
+    ctx.sample("into_string probes", &case);
+  }
+  ctx.part("owning String conversions (child-process probes)", json!({"probes": probe_inputs.len(), "never_returned": never}));
   ctx.bound("grid", json!({"schemes": schemes.len(), "methods": methods.len(), "networks": nets.len(), "tags": tags.len(), "suffixes": suffixes.len(), "prefixes": prefixes.len()}));
   ctx.bound("network_name_alphabets", json!({"narrow": net_sigma, "narrow_max_len": 7, "wide": wide, "wide_max_len": ctx.by_tier(4, 6)}));
   ctx.bound("constructor_network_names", names.len());
@@ -857,5 +979,8 @@ fn generate(ctx: &Ctx) {
 }
 
 fn main() {
+  if let Ok(arg) = std::env::var("C17_PROBE") {
+    return probe_child_main(&arg);
+  }
   vx::run_main::<Case, _, _>("C17", Level::ModelChecking, generate, eval)
 }
